@@ -73,14 +73,16 @@ def _with_fail(nodes, failing):
     return out
 
 
-def _level(nodes):
-    """Top-level view: wrappers as atomic nodes with their boundary names; inner fallbacks conservatively propagated."""
+def _level(nodes, topo=None):
+    """Top-level view: wrappers as atomic nodes with their boundary names; inner fallbacks conservatively propagated.
+    Inner specs may carry permuted names, so defaults are read from the flat program by node name."""
+    flat = {n["name"]: n for n in (topo or [])}
     lvl = []
     for x in nodes:
         if x["k"] == "graph":
             inner_defaults = {}
             for y in _funcs([x]):
-                inner_defaults.update(y.get("defaults", {}))
+                inner_defaults.update(flat.get(y["name"], y).get("defaults", {}))
             lvl.append({"k": "func", "name": x["name"], "params": list(x["flat_inputs"]), "outs": list(x["flat_outputs"]),
                         "defaults": {p: 1 for p in x["flat_inputs"] if p in inner_defaults}, "_inner": [y["name"] for y in _funcs([x])]})
         else:
@@ -112,7 +114,7 @@ def _check_failed(tag, case, out, ctx, failing, selected, env, args, values, mod
         raise Violation("c11.wrapped_or_other_error", f"[{tag}] FAILED result carries {type(out.error).__name__}: {str(out.error)[:200]} instead of the node's own exception object", got=type(out.error).__name__)
     failed_fid = out.error.fid
     nodes = case["nodes"]
-    lvl = _level(nodes)
+    lvl = _level(nodes, case["topo"])
     by_out = {o: n for n in lvl for o in n["outs"]}
     ftop = next(n for n in lvl if n["name"] == failed_fid or failed_fid in n.get("_inner", []))
     depth = ref.depth(lvl)
@@ -173,7 +175,7 @@ def check_case(case, ev):
     values = {p: ("in", p, 0) for p in required}
     env, args = ref.eval_dag(topo, values, {})
     func_names = [n["name"] for n in topo if n["name"] not in case["inactive"] and args.get(n["name"]) is not None]
-    lvl = _level(nodes)
+    lvl = _level(nodes, topo)
     depth = ref.depth(lvl)
     lvl_of = {}
     for n in lvl:
